@@ -1,4 +1,6 @@
 import GardenVerif.Model.Machine
+import GardenVerif.Model.TestRunner
+import GardenVerif.Lemmas.TestRunner
 /-!
 Helper lemmas for C25 (Props/C25.lean): what ONE `Machine.step` does to the tick counter, the
 call-stack depth and the configured limits, and the bounded iteration `runN`.
@@ -139,5 +141,201 @@ theorem potential_decreases (L : Nat) (s s' : State) (hL : s.tickLimit = some L)
   · simp [hL, limitReached] at hlim
     omega
   · omega
+
+-- ------------------------------------------------------------------ the test runner (many evaluations, ONE budget)
+
+open TestRunner in
+/-- One iteration of the evaluator loop with ANY dispatch function: the tick counter grows by at
+most one. -/
+theorem stepWith_ticks (d : Program → Frame → St → Expr → Disp) (s s' : State)
+    (h : stateOf (stepWith d s) = some s') : s'.ticks ≤ s.ticks + 1 := by
+  unfold stepWith at h
+  match hf : s.frames with
+  | [] => simp [hf, stateOf] at h
+  | f :: callers =>
+    simp only [hf] at h
+    match he : f.exprs with
+    | [] =>
+      simp only [he] at h
+      cases callers with
+      | nil =>
+        cases hv : f.values <;> simp [hv, stateOf] at h
+        subst h; simp [setTop_ticks]
+      | cons caller rest =>
+        cases hv : f.values with
+        | nil => simp [hv, stateOf] at h
+        | cons v vs =>
+          simp only [hv] at h
+          split at h <;> simp [stateOf] at h <;> subst h <;> simp
+    | (st, e) :: rest =>
+      simp only [he] at h
+      split at h
+      · simp [stateOf] at h; subst h; simp [setTop_ticks]
+      · split at h
+        · simp [stateOf] at h; subst h; simp [setTop_ticks]
+        · split at h
+          · simp [stateOf] at h; subst h; simp [setTop_ticks]
+          · split at h <;> (try rw [stopCheck_state] at h) <;> simp [stateOf] at h <;> subst h <;>
+              simp [setTop_ticks]
+
+open TestRunner in
+/-- A continuing iteration either did not tick (frame return) or ticked and stayed below the limit. -/
+theorem stepWith_cont_ticks (d : Program → Frame → St → Expr → Disp) (s s' : State)
+    (h : stepWith d s = .cont s') : s'.ticks = s.ticks ∨
+      (s'.ticks = s.ticks + 1 ∧ limitReached s.tickLimit (s.ticks + 1) = false) := by
+  unfold stepWith at h
+  match hf : s.frames with
+  | [] => simp [hf] at h
+  | f :: callers =>
+    simp only [hf] at h
+    match he : f.exprs with
+    | [] =>
+      simp only [he] at h
+      cases callers with
+      | nil => cases hv : f.values <;> simp [hv] at h
+      | cons caller rest =>
+        cases hv : f.values with
+        | nil => simp [hv] at h
+        | cons v vs =>
+          simp only [hv] at h
+          split at h <;> simp at h
+          subst h; simp
+    | (st, e) :: rest =>
+      simp only [he] at h
+      split at h
+      · simp at h
+      · split at h
+        · simp at h
+        · rename_i hl
+          simp only [Bool.not_eq_true] at hl
+          split at h
+          · simp at h
+          · right
+            split at h
+            · have h := stopCheck_cont _ _ _ _ _ h; subst h; simp [setTop_ticks, hl]
+            · have h := stopCheck_cont _ _ _ _ _ h; subst h; simp [setTop_ticks, hl]
+            · simp at h; subst h; simp [hl]
+            all_goals simp at h
+
+open TestRunner in
+/-- A whole evaluation (`eval`: any number of loop iterations) under tick limit `L` ends — or
+runs out of the model's fuel — with `ticks ≤ max (ticks₀ + 1) L`, and never changes the limit. -/
+theorem runWith_ticks (d : Program → Frame → St → Expr → Disp) (L : Nat) : ∀ (n : Nat) (s : State),
+    s.tickLimit = some L →
+    match runWith d n s with
+    | .done s' _ | .error s' _ | .outOfFuel s' => s'.ticks ≤ max (s.ticks + 1) L ∧ s'.tickLimit = some L
+    | _ => True := by
+  intro n
+  induction n with
+  | zero => intro s hL; simp [runWith, hL]; omega
+  | succ n ih =>
+    intro s hL
+    unfold runWith
+    cases hstep : stepWith d s with
+    | cont s1 =>
+      simp only
+      have hst := stepWith_static d s s1 (by simp [hstep, stateOf])
+      have ht := stepWith_cont_ticks d s s1 hstep
+      have hL1 : s1.tickLimit = some L := hst.tl.trans hL
+      have := ih s1 hL1
+      cases hr : runWith d n s1 <;> simp only [hr] at this ⊢ <;> try trivial
+      all_goals (
+        refine ⟨?_, this.2⟩
+        rcases ht with ht | ⟨ht, hlim⟩
+        · rw [ht] at this; exact this.1
+        · simp [hL, limitReached] at hlim
+          have := this.1
+          omega)
+    | done s1 v =>
+      simp only
+      have hst := stepWith_static d s s1 (by simp [hstep, stateOf])
+      have ht := stepWith_ticks d s s1 (by simp [hstep, stateOf])
+      exact ⟨by omega, hst.tl.trans hL⟩
+    | error s1 e =>
+      simp only
+      have hst := stepWith_static d s s1 (by simp [hstep, stateOf])
+      have ht := stepWith_ticks d s s1 (by simp [hstep, stateOf])
+      exact ⟨by omega, hst.tl.trans hL⟩
+    | panic site => simp
+    | unsupported w => simp
+
+open TestRunner in
+theorem evalWith_ticks (d : Program → Frame → St → Expr → Disp) (L : Nat) (n : Nat) (s : State)
+    (hL : s.tickLimit = some L) :
+    match evalWith d n s with
+    | .done s' _ | .error s' _ | .outOfFuel s' => s'.ticks ≤ max (s.ticks + 1) L ∧ s'.tickLimit = some L
+    | _ => True := by
+  have key : evalWith d n s = runWith d n s ∨ evalWith d n s = .done s vUnit := by
+    unfold evalWith
+    split
+    · split
+      · exact Or.inr rfl
+      · exact Or.inl rfl
+    · exact Or.inl rfl
+  rcases key with k | k
+  · rw [k]; exact runWith_ticks d L n s hL
+  · rw [k]; simp only; exact ⟨by omega, hL⟩
+
+open TestRunner in
+theorem popToToplevel_ticks (s : State) :
+    (popToToplevel s).ticks = s.ticks ∧ (popToToplevel s).tickLimit = s.tickLimit := by
+  unfold popToToplevel; split <;> simp
+
+/-- The state `eval_tests` leaves when it returns normally. -/
+def finishedState : TestRunner.Outcome → Option State
+  | .finished _ s => some s
+  | _ => none
+
+open TestRunner in
+theorem finishedState_cons (x : String × Verdict) (o : Outcome) :
+    finishedState (o.cons x) = finishedState o := by
+  cases o <;> rfl
+
+open TestRunner in
+/-- **One budget for the whole test run.** `eval_tests` over ANY list of tests, with any dispatch
+function, from a state with tick limit `L`: when it returns, the tick counter is at most
+`max ticks₀ L + #tests` (each test started after the budget is exhausted costs exactly the one tick
+on which the limit check fires), and the limit is still `L`. -/
+theorem runTestsWith_ticks (d : Program → Frame → St → Expr → Disp) (fuel L : Nat) :
+    ∀ (ts : List TestDef) (s s' : State), s.tickLimit = some L →
+    finishedState (runTestsWith d fuel s ts) = some s' →
+    s'.ticks ≤ max s.ticks L + ts.length ∧ s'.tickLimit = some L := by
+  intro ts
+  induction ts with
+  | nil => intro s s' hL h; simp [runTestsWith, finishedState] at h; subst h; simp [hL]; omega
+  | cons t ts ih =>
+    intro s s' hL h
+    unfold runTestsWith at h
+    have hev := evalWith_ticks d L fuel (pushTestFrame s t) (by simpa [pushTestFrame] using hL)
+    have hpt : (pushTestFrame s t).ticks = s.ticks := rfl
+    cases hr : evalWith d fuel (pushTestFrame s t) with
+    | done s1 v =>
+      simp only [hr] at h hev
+      rw [finishedState_cons] at h
+      have hp := popToToplevel_ticks s1
+      have := ih (popToToplevel s1) s' (hp.2.trans hev.2) h
+      rw [hp.1] at this
+      refine ⟨?_, this.2⟩
+      have h1 := this.1; have h2 := hev.1
+      simp only [List.length_cons]; omega
+    | error s1 e =>
+      simp only [hr] at h hev
+      have hp := popToToplevel_ticks s1
+      cases hc : classifyErr e <;> simp only [hc] at h
+      case interrupted =>
+        simp [finishedState] at h; subst h
+        refine ⟨?_, hev.2⟩
+        have h2 := hev.1
+        simp only [List.length_cons]; omega
+      all_goals (
+        rw [finishedState_cons] at h
+        have := ih (popToToplevel s1) s' (hp.2.trans hev.2) h
+        rw [hp.1] at this
+        refine ⟨?_, this.2⟩
+        have h1 := this.1; have h2 := hev.1
+        simp only [List.length_cons]; omega)
+    | panic site => simp [hr, finishedState] at h
+    | unsupported w => simp [hr, finishedState] at h
+    | outOfFuel s1 => simp [hr, finishedState] at h
 
 end MachineTicks
